@@ -246,3 +246,167 @@ class thumb_monotone:
         t1, th1 = bar_parts(a.maxrow, a.rows_max, a.pos1)
         t2, th2 = bar_parts(a.maxrow, a.rows_max, a.pos2)
         yield "top-monotone-in-position", t1 <= t2
+
+
+def _missing(ip, st, obj, name):
+    if name == "_command_map":
+        return COMMAND_MAP
+    return NotImplemented
+
+
+SCROLL_CMDS = {"cursor up": "line up", "cursor down": "line down", "cursor page up": "page up", "cursor page down": "page down",
+               "cursor max left": "to top", "cursor max right": "to end"}
+
+
+@contract(SC + "Scrollable.keypress", property="C20", inline=(SC + "Scrollable._get_original_widget_size",), replayable=False)
+class scrollable_keypress:
+    self_shape = SCROLLABLE
+    params = dict(size=Tup(Int, Int), key=Opaque("Key"))
+    result = Opt(Opaque("Key"))
+    missing_field = staticmethod(_missing)
+
+    def requires(s, a):
+        w = s._original_widget
+        return both(a.size[0] >= 1, a.size[1] >= 1, either(sizing_has(w, Sizing.FLOW), sizing_has(w, Sizing.FIXED)))
+
+    def ensures(old, s, a, result):
+        st = cur()
+        kp = [ev for ev in st.trace if ev[0] == "call" and ev[2] == "keypress"]
+        fwd = old._forward_keypress
+        forwarded = ((not is_none(fwd)) and bool(val(fwd))) or bool(old.force_forward_keypress)
+        inval = count_ev(s.trace, "_invalidate")
+        if forwarded:
+            yield "offered-once-to-child", len(kp) == 1
+            child_result = kp[0][4] if kp else None
+            if is_none(child_result):
+                yield "handled-by-child-not-used-for-scrolling", both(is_none(result), eq(s._scroll_action, old._scroll_action), inval == 0, s._trim_top == old._trim_top)
+                return
+            key2 = val(child_result)
+        else:
+            yield "not-offered", len(kp) == 0
+            key2 = a.key
+        cmd = command_of(key2)
+        scroll = either(*[cmd == c for c in SCROLL_CMDS])
+        if scroll:
+            yield "scroll-recorded", both(is_none(result), inval == 1, *[implies(cmd == c, s._scroll_action == act) for c, act in SCROLL_CMDS.items()])
+        else:
+            yield "unused-key-returned-unchanged", both(neg(is_none(result)), eq(val(result), key2) if not is_none(result) else False, inval == 0, eq(s._scroll_action, old._scroll_action))
+        yield "position-untouched", s._trim_top == old._trim_top
+
+
+@contract(SC + "Scrollable.mouse_event", property="C20", inline=(SC + "Scrollable._get_original_widget_size",), replayable=False)
+class scrollable_mouse:
+    self_shape = SCROLLABLE
+    params = dict(size=Tup(Int, Int), event=Opaque("Key"), button=Int, col=Int, row=Int, focus=Bool)
+    result = Bool
+
+    def requires(s, a):
+        w = s._original_widget
+        return both(a.size[0] >= 1, a.size[1] >= 1, either(sizing_has(w, Sizing.FLOW), sizing_has(w, Sizing.FIXED)))
+
+    def ensures(old, s, a, result):
+        st = cur()
+        me = [ev for ev in st.trace if ev[0] == "call" and ev[2] == "mouse_event"]
+        if PROTOCOLS["Widget"].hasattr(None, st, old._original_widget, "mouse_event"):
+            yield "delivered-once", len(me) == 1
+            if me:
+                v = me[0][3]
+                yield "row-translated-by-scroll-position", both(v["row"] == a.row + old._trim_top, v["col"] == a.col, v["button"] == a.button, eq(v["focus"], a.focus))
+                yield "result-is-childs", eq(result, me[0][4])
+        else:
+            yield "no-handler", both(len(me) == 0, result == False)  # noqa: E712
+        yield "no-scrolling", both(s._trim_top == old._trim_top, eq(s._scroll_action, old._scroll_action))
+
+
+@contract(SC + "Scrollable.set_scrollpos", property="C20")
+class set_scrollpos:
+    self_shape = SCROLLABLE
+    params = dict(position=Int)
+
+    def ensures(old, s, a, result):
+        yield "stored", s._trim_top == a.position
+        yield "invalidates", count_ev(s.trace, "_invalidate") == 1
+
+    def make_self(selfvals):
+        return adjust_trim_top.make_self(selfvals)
+
+    def observe(w):
+        inv = []
+        return dict(_trim_top=w._trim_top, trace=[("_invalidate",)])
+
+
+@contract(SC + "Scrollable.get_scrollpos", property="C20")
+class get_scrollpos:
+    self_shape = SCROLLABLE
+    params = dict(size=Opt(Tup(Int, Int)), focus=Bool)
+    result = Int
+
+    def ensures(old, s, a, result):
+        yield "reports-position", result == old._trim_top
+        yield "pure", s._trim_top == old._trim_top
+
+
+@contract(SC + "Scrollable.rows_max", property="C20", inline=(SC + "Scrollable._get_original_widget_size",), replayable=False)
+class rows_max:
+    self_shape = SCROLLABLE
+    params = dict(size=Tup(Int, Int), focus=Bool)
+    result = Int
+
+    def requires(s, a):
+        w = s._original_widget
+        return both(a.size[0] >= 1, a.size[1] >= 1, either(sizing_has(w, Sizing.FLOW), sizing_has(w, Sizing.FIXED)))
+
+    def ensures(old, s, a, result):
+        st = cur()
+        W = PROTOCOLS["Widget"]
+        w = old._original_widget
+        ow_size = (a.size[0],) if sizing_has(w, Sizing.FLOW) else ()
+        full = W.call_quiet(st, w, "render", dict(size=ow_size, focus=a.focus))
+        yield "total-rows-of-full-rendering", result == full.nrows
+
+
+@contract(SC + "ScrollBar.keypress", property="C20", replayable=False)
+class scrollbar_keypress:
+    self_shape = SCROLLBAR
+    params = dict(size=Tup(Int, Int), key=Opaque("Key"))
+    result = Opt(Opaque("Key"))
+
+    def ensures(old, s, a, result):
+        st = cur()
+        kp = [ev for ev in st.trace if ev[0] == "call" and ev[2] == "keypress"]
+        yield "forwarded-once-with-the-size-last-rendered", both(len(kp) == 1, eq(kp[0][3]["size"], old._original_widget_size) if kp else False, eq(kp[0][3]["key"], a.key) if kp else False)
+        yield "result-is-childs", (is_none(result) and is_none(kp[0][4])) or ((not is_none(result)) and (not is_none(kp[0][4])) and bool(eq(val(result), val(kp[0][4])))) if kp else False
+        yield "no-other-calls", len([ev for ev in st.trace if ev[0] == "call"]) == 1
+
+
+@contract(SC + "ScrollBar.mouse_event", property="C20", replayable=False)
+class scrollbar_mouse:
+    self_shape = SCROLLBAR
+    params = dict(size=Tup(Int, Int), event=Opaque("Key"), button=Int, col=Int, row=Int, focus=Bool)
+    result = Bool
+
+    def requires(s, a):
+        # a widget that can be positioned can also report its position (urwid's SupportsScroll protocol)
+        W = PROTOCOLS["Widget"]
+        return implies(W.hasattr(None, cur(), s._original_widget, "set_scrollpos"), W.hasattr(None, cur(), s._original_widget, "get_scrollpos"))
+
+    def ensures(old, s, a, result):
+        st = cur()
+        W = PROTOCOLS["Widget"]
+        w = old._original_widget
+        me = [ev for ev in st.trace if ev[0] == "call" and ev[2] == "mouse_event"]
+        sets = [ev for ev in st.trace if ev[0] == "call" and ev[2] == "set_scrollpos"]
+        gets = [ev for ev in st.trace if ev[0] == "call" and ev[2] == "get_scrollpos"]
+        has_me = bool(W.hasattr(None, st, w, "mouse_event"))
+        yield "offered-to-child-first", len(me) == (1 if has_me else 0)
+        handled = bool(me[0][4]) if me else False
+        if handled:
+            yield "handled-by-child-not-used-for-scrolling", both(len(sets) == 0, result == True)  # noqa: E712
+        elif bool(W.hasattr(None, st, w, "set_scrollpos")) and bool(either(a.button == 4, a.button == 5)):
+            yield "wheel-scrolls-one-line", both(len(sets) == 1, len(gets) == 1, result == True)  # noqa: E712
+            if sets and gets:
+                pos = gets[0][4]
+                want = ite(a.button == 4, imax(pos - 1, 0), pos + 1)
+                yield "by-one-line", sets[0][3]["position"] == want
+        else:
+            yield "not-handled", both(len(sets) == 0, result == False)  # noqa: E712
